@@ -1,8 +1,8 @@
 ----------------------------- MODULE Reopen -----------------------------
 (* C04 (abstract, property-level): what closing/reopening a database and  *)
 (* what dying in the middle of a mutating request may do to the abstract   *)
-(* store of GraphStore.tla (spec/store; injected into this directory by    *)
-(* the check so that there is one definition of Eff, Calls and Obs).       *)
+(* store of GraphStore.tla (a verbatim copy of spec/store/GraphStore.tla:  *)
+(* Eff, Calls, Obs; the check notes when the two files differ).            *)
 (*                                                                         *)
 (*  Restart      clean close + reopen: the observable state is unchanged.  *)
 (*               `gs` therefore IS the never-stopped twin: every later     *)
@@ -30,7 +30,7 @@ CONSTANTS Mode,          \* "gen": histories with restarts; "judge": read observ
           RestartSets    \* set of sets of positions (number of steps done) at which a restart is inserted
 
 VARIABLES rset, l
-rvars == <<gs, hist, rset, l>>
+rvars == <<gs, hist, fin, rset, l>>
 
 ------------------------------------------------------------------------
 (* re-labelling an existing element (or twice in one batch) is the known  *)
@@ -55,18 +55,21 @@ RestartEntry(s) == [call |-> RestartCall, res |-> "ok", after |-> s, changed |->
 RDo(c) == /\ Enabled(c)
           /\ gs' = Eff(gs, c)[1]
           /\ hist' = Append(hist, Entry(gs, c))
-          /\ UNCHANGED <<rset, l>>
+          /\ UNCHANGED <<rset, l, fin>>
 
 \* clean close + reopen: observable state unchanged (Transparent: gs is the never-stopped twin)
 Restart == /\ gs' = gs
            /\ hist' = Append(hist, RestartEntry(gs))
-           /\ UNCHANGED <<rset, l>>
+           /\ UNCHANGED <<rset, l, fin>>
 
 RestartDue == Len(hist) \in rset /\ (hist = <<>> \/ hist[Len(hist)].call.op # "Restart")
 
-GenInit == gs = <<>> /\ hist = <<>> /\ rset \in RestartSets /\ l = 0
-GenNext == /\ Len(hist) < HistLen
-           /\ IF RestartDue THEN Restart ELSE \E c \in Calls : RDo(c)
+GenInit == gs = <<>> /\ hist = <<>> /\ fin = FALSE /\ rset \in RestartSets /\ l = 0
+\* a complete history is marked by a separate step (in -simulate mode TLC evaluates invariants on every sibling)
+RFinish == Len(hist) = HistLen /\ ~fin /\ fin' = TRUE /\ UNCHANGED <<gs, hist, rset, l>>
+GenNext == \/ /\ Len(hist) < HistLen
+              /\ IF RestartDue THEN Restart ELSE \E c \in Calls : RDo(c)
+           \/ RFinish
 
 ------------------------------------------------------------------------
 (* running a list of calls (with Restart steps) from the empty store      *)
@@ -82,31 +85,34 @@ Look(t, id) == IF id \in DOMAIN t THEN <<"some", t[id]>> ELSE <<"none">>
 GraphOr(s, g) == IF g \in DOMAIN s THEN s[g] ELSE EmptyG
 
 \* classes of inadmissibility of the state s2 observed after reopening
+Tbl(G, kind) == IF kind = "V" THEN G.V ELSE G.E
 AdmBad(s, c, s2) ==
   LET a == Eff(s, c)[1]
-      Tbl(G, kind) == IF kind = "V" THEN G.V ELSE G.E
-      Ids(g, kind) == DOMAIN Tbl(GraphOr(s, g), kind) \cup DOMAIN Tbl(GraphOr(a, g), kind) \cup DOMAIN Tbl(s2[g], kind)
-      Untouched(g, kind, id) == Look(Tbl(GraphOr(s, g), kind), id) = Look(Tbl(GraphOr(a, g), kind), id)
-      Seen(g, kind, id) == Look(Tbl(s2[g], kind), id)
-  IN  {"graph-existence" : x \in {g \in GraphNames \cup DOMAIN s2 :
+      Old(g, k, id) == Look(Tbl(GraphOr(s, g), k), id)
+      New(g, k, id) == Look(Tbl(GraphOr(a, g), k), id)
+      Seen(g, k, id) == Look(Tbl(s2[g], k), id)
+      Elems == UNION {{<<g, k, id>> : id \in DOMAIN Tbl(GraphOr(s, g), k) \cup DOMAIN Tbl(GraphOr(a, g), k) \cup DOMAIN Tbl(s2[g], k)} :
+                         g \in DOMAIN s2, k \in {"V", "E"}}
+      Flag(name, W) == IF W = {} THEN {} ELSE {name}
+  IN  Flag("graph-existence", {g \in GraphNames \cup DOMAIN s2 :
             \/ (g \in DOMAIN s2 /\ g \notin DOMAIN s /\ g \notin DOMAIN a)
-            \/ (g \notin DOMAIN s2 /\ g \in DOMAIN s /\ g \in DOMAIN a)}}
+            \/ (g \notin DOMAIN s2 /\ g \in DOMAIN s /\ g \in DOMAIN a)})
       \cup
-      {"acknowledged-element-lost-or-changed" : x \in {<<g, k, id>> \in UNION {{<<g, k, id>> : id \in Ids(g, k)} : g \in DOMAIN s2, k \in {"V", "E"}} :
-            /\ Untouched(g, k, id) /\ id \in DOMAIN Tbl(GraphOr(s, g), k)
-            /\ Seen(g, k, id) # Look(Tbl(GraphOr(s, g), k), id)}}
+      \* not touched by c and acknowledged before: must be there, unchanged
+      Flag("acknowledged-element-lost-or-changed", {x \in Elems :
+            /\ Old(x[1], x[2], x[3]) = New(x[1], x[2], x[3]) /\ Old(x[1], x[2], x[3]) # <<"none">>
+            /\ Seen(x[1], x[2], x[3]) # Old(x[1], x[2], x[3])})
       \cup
-      {"foreign-element" : x \in {<<g, k, id>> \in UNION {{<<g, k, id>> : id \in Ids(g, k)} : g \in DOMAIN s2, k \in {"V", "E"}} :
-            /\ Untouched(g, k, id) /\ id \notin DOMAIN Tbl(GraphOr(s, g), k)
-            /\ Seen(g, k, id) # <<"none">>}}
+      \* not touched by c and absent before: nothing may appear
+      Flag("foreign-element", {x \in Elems :
+            /\ Old(x[1], x[2], x[3]) = New(x[1], x[2], x[3]) /\ Old(x[1], x[2], x[3]) = <<"none">>
+            /\ Seen(x[1], x[2], x[3]) # <<"none">>})
       \cup
-      {"element-neither-old-nor-new" : x \in {<<g, k, id>> \in UNION {{<<g, k, id>> : id \in Ids(g, k)} : g \in DOMAIN s2, k \in {"V", "E"}} :
-            /\ ~Untouched(g, k, id)
-            /\ Seen(g, k, id) # Look(Tbl(GraphOr(s, g), k), id)
-            /\ Seen(g, k, id) # Look(Tbl(GraphOr(a, g), k), id)}}
-      \cup
-      \* a graph that survives although every graph-level effect is "graph absent" keeps, per element, old or nothing: covered above
-      {}
+      \* touched by the interrupted call: its effect or no effect, per element
+      Flag("element-neither-old-nor-new", {x \in Elems :
+            /\ Old(x[1], x[2], x[3]) # New(x[1], x[2], x[3])
+            /\ Seen(x[1], x[2], x[3]) # Old(x[1], x[2], x[3])
+            /\ Seen(x[1], x[2], x[3]) # New(x[1], x[2], x[3])})
 Admissible(s, c, s2) == AdmBad(s, c, s2) = {}
 
 ------------------------------------------------------------------------
@@ -141,12 +147,18 @@ LabelDangling(o) ==
 \* every listed ELEMENT is reachable through lookup, adjacency and the label index
 LookupMissing(o) == \/ \E id \in DOMAIN o.getV : o.getV[id] = <<"none">> /\ id \in DOMAIN o.V
                     \/ \E id \in DOMAIN o.getE : o.getE[id] = <<"none">> /\ id \in DOMAIN o.E
-AdjMissing(o) == \E oi \in DOMAIN o.adj : \E e \in DOMAIN o.E :
-   LET r == o.E[e] IN LabelOK(LabelOpts[oi], r.label) /\
-     \/ (r.from \in VIds /\ Times(o.adj[oi].outE[r.from], e) = 0)
-     \/ (r.to \in VIds /\ Times(o.adj[oi].inE[r.to], e) = 0)
-     \/ (r.from \in VIds /\ r.to \in DOMAIN o.V /\ Times(o.adj[oi].out[r.from], r.to) = 0)
-     \/ (r.to \in VIds /\ r.from \in DOMAIN o.V /\ Times(o.adj[oi].in[r.to], r.from) = 0)
+\* number of edges v -> w (dir "out") / w -> v (dir "in") passing label filter oi
+Expected(o, oi, v, w, dir) ==
+  Cardinality({e \in DOMAIN o.E : /\ LabelOK(LabelOpts[oi], o.E[e].label)
+                                   /\ IF dir = "out" THEN o.E[e].from = v /\ o.E[e].to = w
+                                                      ELSE o.E[e].to = v /\ o.E[e].from = w})
+AdjMissing(o) == \E oi \in DOMAIN o.adj :
+   \/ \E e \in DOMAIN o.E : LET r == o.E[e] IN LabelOK(LabelOpts[oi], r.label) /\
+        \/ (r.from \in VIds /\ Times(o.adj[oi].outE[r.from], e) = 0)
+        \/ (r.to \in VIds /\ Times(o.adj[oi].inE[r.to], e) = 0)
+   \/ \E v \in VIds : \E w \in DOMAIN o.V :
+        \/ Times(o.adj[oi].out[v], w) < Expected(o, oi, v, w, "out")
+        \/ Times(o.adj[oi].in[v], w) < Expected(o, oi, v, w, "in")
 LabelMissing(o) ==
    \/ \E v \in DOMAIN o.V : LET lb == o.V[v].label IN lb \in DOMAIN o.byLabel /\ v \notin SeqToSet(o.byLabel[lb])
    \/ \E v \in DOMAIN o.V : o.V[v].label \notin SeqToSet(o.vlabels)
@@ -157,11 +169,8 @@ Multiplicity(o) ==
    \/ o.dupV # <<>> \/ o.dupE # <<>>
    \/ \E oi \in DOMAIN o.adj : \E v \in VIds :
         \/ \E e \in DOMAIN o.E : Times(o.adj[oi].outE[v], e) > 1 \/ Times(o.adj[oi].inE[v], e) > 1
-        \/ \E w \in DOMAIN o.V :
-             \/ Times(o.adj[oi].out[v], w) # Cardinality({e \in DOMAIN o.E : o.E[e].from = v /\ o.E[e].to = w /\ LabelOK(LabelOpts[oi], o.E[e].label)})
-                  /\ Times(o.adj[oi].out[v], w) > 1
-             \/ Times(o.adj[oi].in[v], w) # Cardinality({e \in DOMAIN o.E : o.E[e].to = v /\ o.E[e].from = w /\ LabelOK(LabelOpts[oi], o.E[e].label)})
-                  /\ Times(o.adj[oi].in[v], w) > 1
+        \/ \E w \in DOMAIN o.V : \/ Times(o.adj[oi].out[v], w) > Expected(o, oi, v, w, "out")
+                                  \/ Times(o.adj[oi].in[v], w) > Expected(o, oi, v, w, "in")
    \/ \E lb \in DOMAIN o.byLabel : \E i, j \in DOMAIN o.byLabel[lb] : i < j /\ o.byLabel[lb][i] = o.byLabel[lb][j]
    \/ \E i, j \in DOMAIN o.vlabels : i < j /\ o.vlabels[i] = o.vlabels[j]
    \/ \E i, j \in DOMAIN o.elabels : i < j /\ o.elabels[i] = o.elabels[j]
@@ -188,6 +197,8 @@ AllIntegrityBad(obs, lenient) == UNION {IntegrityBad(obs[g], lenient) : g \in DO
 (*                                              obs was read back after reopening              *)
 (*  kind "cont"   [i, calls, from, call, obs]-> after a crash whose outcome `from` was admissible *)
 (*                                              and had Integrity, `call` ran to completion       *)
+(*  kind "done"   [i, calls, call, obs]      -> `call` ran to completion, then the store was      *)
+(*                                              reopened and read back                            *)
 ObsFile == IF Mode = "judge" THEN ndJsonDeserialize("obs.ndjson") ELSE <<>>
 Verdict(x) ==
   CASE x.kind = "state" -> [i |-> x.i, obs |-> Obs(x.state)]
@@ -204,8 +215,16 @@ Verdict(x) ==
          IN [i |-> x.i, res |-> r[2], after |-> r[1], lenient |-> lenient,
              same |-> ObsState(x.obs) = r[1],
              integ |-> AllIntegrityBad(x.obs, lenient)]
-JudgeInit == gs = <<>> /\ hist = <<>> /\ rset = {} /\ l = 1
-JudgeNext == l <= Len(ObsFile) /\ l' = l + 1 /\ UNCHANGED <<gs, hist, rset>>
+    [] x.kind = "done" ->
+         LET f == RunCalls(x.calls)
+             s == f[Len(x.calls)]
+             r == Eff(s, x.call)
+             lenient == AnyRelabel(x.calls) \/ Relabels(s, x.call)
+         IN [i |-> x.i, res |-> r[2], after |-> r[1], lenient |-> lenient,
+             same |-> ObsState(x.obs) = r[1],
+             integ |-> AllIntegrityBad(x.obs, lenient)]
+JudgeInit == gs = <<>> /\ hist = <<>> /\ fin = FALSE /\ rset = {} /\ l = 1
+JudgeNext == l <= Len(ObsFile) /\ l' = l + 1 /\ UNCHANGED <<gs, hist, fin, rset>>
 EmitVerdict == (Mode = "judge" /\ l <= Len(ObsFile)) => Emit("verdict", Verdict(ObsFile[l]))
 
 RInit == IF Mode = "gen" THEN GenInit ELSE JudgeInit
@@ -215,8 +234,8 @@ RSpec == RInit /\ [][RNext]_rvars
 ------------------------------------------------------------------------
 (* properties of the abstract spec itself (Mode "gen")                    *)
 \* Transparent: the state after any history equals the state of the twin that ran the same calls without the restarts
-Twin(h) == RunCalls([i \in DOMAIN SelectSeq(h, LAMBDA e : e.call.op # "Restart") |-> SelectSeq(h, LAMBDA e : e.call.op # "Restart")[i].call])
-Transparent == Mode = "gen" => LET cs == SelectSeq(hist, LAMBDA e : e.call.op # "Restart") IN gs = Twin(hist)[Len(cs)]
+CallsOnly(h) == LET q == SelectSeq(h, LAMBDA e : e.call.op # "Restart") IN [i \in DOMAIN q |-> q[i].call]
+Transparent == Mode = "gen" => LET cs == CallsOnly(hist) IN gs = RunCalls(cs)[Len(cs)]
 \* the specification's own observations have Integrity, and finishing or not starting a call is an admissible crash outcome
 SpecObs(s) == [g \in DOMAIN s |->
    LET G == s[g] O == ObsG(G) IN
@@ -232,5 +251,5 @@ SpecObs(s) == [g \in DOMAIN s |->
 SelfCheck == Mode = "gen" =>
    /\ AllIntegrityBad(SpecObs(gs), FALSE) = {}
    /\ \A c \in Calls : Enabled(c) => Admissible(gs, c, gs) /\ Admissible(gs, c, Eff(gs, c)[1])
-EmitHistR == (Mode = "gen" /\ Len(hist) = HistLen) => Emit("hist", hist)
+EmitHistR == (Mode = "gen" /\ fin) => Emit("hist", hist)
 =======================================================================
